@@ -182,12 +182,11 @@ where
             err @ Err(_) => err,
         };
 
-        let value = result?;
-
+        // Restore the outer bindings of the closure parameters before propagating a failure.
         cleanup(ctx.state_mut(), key_ident, old_key);
         cleanup(ctx.state_mut(), value_ident, old_value);
 
-        Ok(value)
+        result
     }
 
     /// Run the closure to completion, given the provided index/value pair, and
@@ -211,12 +210,13 @@ where
         let old_index = insert(ctx.state_mut(), index_ident, index.into());
         let old_value = insert(ctx.state_mut(), value_ident, cloned_value);
 
-        let value = (self.runner)(ctx)?;
+        let result = (self.runner)(ctx);
 
+        // Restore the outer bindings of the closure parameters before propagating a failure.
         cleanup(ctx.state_mut(), index_ident, old_index);
         cleanup(ctx.state_mut(), value_ident, old_value);
 
-        Ok(value)
+        result
     }
 
     /// Run the closure to completion, given the provided key, and the runtime
@@ -233,9 +233,12 @@ where
         let ident = self.ident(0);
         let old_key = insert(ctx.state_mut(), ident, cloned_key.into());
 
-        *key = (self.runner)(ctx)?.try_bytes_utf8_lossy()?.into();
+        let result = (self.runner)(ctx);
 
+        // Restore the outer binding of the closure parameter before propagating a failure.
         cleanup(ctx.state_mut(), ident, old_key);
+
+        *key = result?.try_bytes_utf8_lossy()?.into();
 
         Ok(())
     }
@@ -254,9 +257,12 @@ where
         let ident = self.ident(0);
         let old_value = insert(ctx.state_mut(), ident, cloned_value);
 
-        *value = (self.runner)(ctx)?;
+        let result = (self.runner)(ctx);
 
+        // Restore the outer binding of the closure parameter before propagating a failure.
         cleanup(ctx.state_mut(), ident, old_value);
+
+        *value = result?;
 
         Ok(())
     }
